@@ -562,6 +562,19 @@ func gen(a Args, out *Out) {
 		})
 	}
 
+	// 11. the worker parked on its output (Chan() full, nobody reading) inside a tick that
+	// has more to hand over, a Cancel arriving meanwhile (see drv.ParkedOnOutput): a
+	// repeating timer whose Cancel returns true must not be handed over afterwards
+	for _, pk := range [][2]int64{{drv.ImplParkWheel, 0}, {drv.ImplParkHeap, 0}, {drv.ImplParkWheel, 1}, {drv.ImplParkHeap, 1}} {
+		in := List(Int(pk[0]), Int(pk[1]), Int(0), List())
+		kind := "parked"
+		if pk[1] == 0 {
+			kind = "parked-repeating"
+		}
+		out.Case(kind, true, in, drv.Run(in))
+		out.Count("parked-on-output-scenarios")
+	}
+
 	// 7. the REAL worker goroutine with nobody reading Chan(): the worker gets stuck
 	// delivering, every id is cancelled, then Chan() is drained; counting only (see drv.Live)
 	for k := 0; k < 1*scale && k < 4; k++ {
